@@ -166,9 +166,10 @@ def f_get_prob(case):
     s1 = B.snapshot(S)
     for idx, bits in enumerate(itertools.product((0, 1), repeat=N)):
         if be == 'np':
-            arg = np.array(bits, dtype=np.int_)
+            arg = np.array(bits, dtype=(np.int_, np.int_, np.int8, np.bool_)[(idx + case.get('salt', 0)) % 4])     # bit strings as integer or boolean arrays
         else:
             arg = B.torch_mods()['torch'].tensor(bits, dtype=B.torch_mods()['torch'].float32)
+        arg0 = B.snapshot(arg)
         try:
             pr = S.get_prob(arg)
         except NotImplementedError:
@@ -177,6 +178,9 @@ def f_get_prob(case):
         pr = float(np.real(Bk.num(pr)))
         exp = float(np.real(rho[idx, idx]))
         check(abs(pr - exp) < 10 * _tol(be), 'get_prob(%s) = %r expected %r (state %s)' % (list(bits), pr, exp, case['state']['rows']), 'get_prob')
+        check(B.snapshot(arg) == arg0, 'get_prob(%s) changed the caller\'s readout array to %s' % (list(bits), Bk.num(arg).tolist()), 'readout-modified')
+        pr2 = float(np.real(Bk.num(S.get_prob(arg))))       # the same readout object scored again
+        check(abs(pr2 - exp) < 10 * _tol(be), 'second get_prob(%s) with the same readout array = %r expected %r' % (list(bits), pr2, exp), 'get_prob-repeat')
         total += pr
         nz += exp > 1e-12
     check(r == 0, 'get_prob on a mixed state returned values instead of raising', 'prob-mixed')
@@ -188,6 +192,7 @@ def f_get_prob(case):
 def st_get_prob(be, hiN):
     return st.integers(1, hiN).flatmap(lambda N: st.fixed_dictionaries(
         {'be': st.just(be), 'N': st.just(N),
+         'salt': st.integers(0, 3),
          'state': st.fixed_dictionaries({'rows': gen.st_clifford_rows(N, max_word=3 * N), 'r': st.sampled_from([0, 0, 0, 0, 0, 0, 0, 1])})}))
 
 
@@ -243,7 +248,7 @@ def f_history(case):
             if len(q) == N and not stp['usemask']:
                 S.transform_by(Bk.cmap(small))
             else:
-                S.transform_by(Bk.cmap(small), Bk.mask(q, N))
+                S.transform_by(Bk.cmap(small), Bk.mask_arg(q, N))
             L, K = small.embed(q, N).apply(L, K)
         elif t == 'rotate':
             q = stp['qubits']
@@ -251,7 +256,7 @@ def f_history(case):
             if len(q) == N and not stp['usemask']:
                 S.rotate_by(Bk.pauli(gl, gk))
             else:
-                S.rotate_by(Bk.pauli(gl, gk), Bk.mask(q, N))
+                S.rotate_by(Bk.pauli(gl, gk), Bk.mask_arg(q, N))
             L, K = ref.rotate_rule(L, K, ref.embed_letters(gl, q, N), gk)
     ts = [x['t'] for x in case['steps']]
     q = [i for i, x in enumerate(ts) if x in ('expect', 'expect-own', 'overlap')]
